@@ -34,9 +34,13 @@ class RefDjango:
         self.default_timeout = default_timeout
         self.d = {}
         self.now = 0.0
+        self.spelled = {}
 
     def fk(self, key, version):
-        return '%s:%s:%s' % (self.prefix, self.version if version is None else version, key)
+        v = self.version if version is None else version
+        out = '%s:%s:%s' % (self.prefix, v, key)
+        self.spelled.setdefault(out, (key, v))       # one spelling of (key, version) that prints as this namespaced key
+        return out
 
     def ttl(self, timeout):
         if timeout == 'omitted':
@@ -159,8 +163,9 @@ def history(dc, sc, res, rng, params, label):
     clock = probe.set_clock(probe.VClock())
     dj = DjangoCache(d, dict(params, OPTIONS={'disk_min_file_size': 64}))
     ref = RefDjango(params['KEY_PREFIX'], params['VERSION'], params['TIMEOUT'])
-    keys = ['k1', 'k2', 'n1', 'n2', 'a b', 'ü']
-    versions = [None, None, 1, 2, 3]
+    # keys and versions are namespaced by how they print: 1, True, 1.0 and '1' are four keys (and == to each other)
+    keys = ['k1', 'k2', 'n1', 'n2', 'a b', 'ü', 1, True, 1.0, '1', 0, False]
+    versions = [None, None, None, 1, 2, 3, 1, 2, True, 1.0]
     hist = []
     pcell = (params['TIMEOUT'], params['KEY_PREFIX'], params['VERSION'], params['SHARDS'])
 
@@ -189,7 +194,7 @@ def history(dc, sc, res, rng, params, label):
             op = gen.pick(rng, ['add', 'get', 'get', 'set', 'set', 'touch', 'delete', 'incr', 'decr', 'has_key', 'get_many',
                                 'set_many', 'delete_many', 'get_or_set', 'get_or_set_callable', 'incr_version',
                                 'decr_version', 'pop', 'contains', 'clear'])
-            numeric = k.startswith('n')
+            numeric = isinstance(k, str) and k.startswith('n')
             val = rng.randrange(100) if numeric else gen.pick(rng, ['v%d' % step, 'L' * 100, ('t', step), None, 0])
             ref.now = clock.now_peek()
             state = 'live' if ref.live(ref.fk(k, ver)) is not None else ('expired' if ref.fk(k, ver) in ref.d else 'absent')
@@ -218,7 +223,7 @@ def history(dc, sc, res, rng, params, label):
                 ks = rng.sample(keys, rng.randrange(1, 4))
                 got, exp = call(lambda: dj.get_many(ks, **vkw)), ref.get_many(ks, ver)
             elif op == 'set_many':
-                data = {kk: (rng.randrange(50) if kk.startswith('n') else 'm%d' % step) for kk in rng.sample(keys, rng.randrange(1, 4))}
+                data = {kk: (rng.randrange(50) if isinstance(kk, str) and kk.startswith('n') else 'm%d' % step) for kk in rng.sample(keys, rng.randrange(1, 4))}
                 got, exp = call(lambda: dj.set_many(data, **tmo_kw(t), **vkw)), ref.set_many(data, t, ver)
             elif op == 'delete_many':
                 ks = rng.sample(keys, rng.randrange(1, 4))
@@ -265,8 +270,8 @@ def history(dc, sc, res, rng, params, label):
         clock.advance(2e9)
         ref.now = clock.now_peek()
         for fk_, (v, e) in list(ref.d.items()):
-            pfx, ver, key = fk_.split(':', 2)
-            got = call(lambda: dj.get(key, 'DEF', version=int(ver)))
+            key, ver = ref.spelled[fk_]
+            got = call(lambda: dj.get(key, 'DEF', version=ver))
             exp = v if e is None else 'DEF'
             if e is None:
                 res.count('forever_items_after_long_jump')
